@@ -139,6 +139,13 @@ impl<S: Read + Write> RdpClient<S> {
     pub fn shutdown(&mut self) -> RdpResult<()> {
         self.mcs.shutdown()
     }
+
+    /// Number of bytes already received but not yet read
+    /// When it is not zero, read will not wait for the server :
+    /// a caller that polls the socket have to read again before
+    pub fn buffered_read_size(&self) -> RdpResult<usize> {
+        self.mcs.buffered_read_size()
+    }
 }
 
 pub struct Connector {
